@@ -54,3 +54,8 @@ package parser
 //@   ensures[C08 unused-in-source-order] forall(j, int, 1 <= j && j < ncalls("(*parser).appendErrorForToken") ==> callarg("(*parser).appendErrorForToken", j, 2).Offset < callarg("(*parser).appendErrorForToken", j + 1, 2).Offset)
 //@   modifies p.errors, class elem:*parser.Error
 //@   loop 1 invariant forall(j, int, 1 <= j && j < ncalls("(*parser).appendErrorForToken") ==> callarg("(*parser).appendErrorForToken", j, 2).Offset < callarg("(*parser).appendErrorForToken", j + 1, 2).Offset)
+
+// Format renders the program; it does not change the tree the evaluator sees (comment/whitespace bookkeeping only).
+//@ func (p *Program) Format() (s string)
+//@   noverify used by the evy command (C18); the formatter's own properties are C06/C07
+//@   modifies nothing
